@@ -50,6 +50,8 @@ func (e event) String() string {
 		return fmt.Sprintf("remove(n%d via n%d)", e.Node, e.Via)
 	case "entry":
 		return fmt.Sprintf("a catalogue entry (dataset created via n%d)", e.Via)
+	case "standalone":
+		return fmt.Sprintf("n%d is started with -join=false and left alone for an election timeout", e.Node)
 	case "down":
 		return fmt.Sprintf("n%d goes down", e.Node)
 	case "up":
@@ -112,6 +114,11 @@ func (w *wld) join(id, via uint64, lossy bool, deadSeedFirst bool) (string, stri
 	}
 	if w.Node(id) == nil {
 		w.Add(id, seeds)
+	}
+	if n := w.Node(id); n.DoNotJoin && !n.Crashed {
+		// a node that was running unattached is attached by restarting it with the members to join
+		w.Crash(id)
+		n.DoNotJoin = false
 	}
 	w.Node(id).Join = seeds
 	if err := w.Boot(id); err != nil {
@@ -190,6 +197,30 @@ func (w *wld) apply(e event) (string, string) {
 		if !done || err != nil {
 			return "catalogue-entry-fails-on-healthy-cluster", fmt.Sprintf("returned=%v err=%v", done, err)
 		}
+	case "standalone":
+		// a node started with -join=false and left alone for longer than an election timeout: it must stay empty (no
+		// zero group of its own), so that it can be attached to the cluster afterwards
+		if w.Node(e.Node) == nil {
+			w.Add(e.Node, nil)
+		}
+		w.Node(e.Node).DoNotJoin = true
+		if err := w.Boot(e.Node); err != nil {
+			return "boot-fails", fmt.Sprint(err)
+		}
+		w.Tick(e.Node, 25)
+		w.Settle(2)
+		var st string
+		w.Call(e.Node, "st", func() {
+			s := w.Node(e.Node).Srv.VerifZeroGroup().VerifStatus()
+			st = fmt.Sprintf("term %d commit %d %s", s.Term, s.Commit, s.RaftState)
+			if s.RaftState.String() == "StateLeader" || s.Commit > 0 {
+				st = "!" + st
+			}
+		})
+		if strings.HasPrefix(st, "!") {
+			return "unattached-node-bootstraps-a-zero-group-of-its-own", fmt.Sprintf("node %d was started with -join=false and no cluster to join; after an election timeout its zero group reports %s - a history of its own that forks from the cluster it is attached to later", e.Node, st[1:])
+		}
+		return "", "" // not a member yet
 	case "down":
 		w.Crash(e.Node) // stays down until "up"
 	case "up":
@@ -438,6 +469,8 @@ func directed() [][]event {
 		{{Kind: "join", Node: 2, Via: 1}, {Kind: "join", Node: X, Via: 1}, {Kind: "deafen", Node: X}, {Kind: "join", Node: 26, Via: 1}, {Kind: "snapshot", Node: 1}, {Kind: "snapshot", Node: 2}, {Kind: "heal"}, {Kind: "snapshot", Node: X}, {Kind: "restart", Node: X}},
 		// ... the same with an ordinary entry after the catch-up, so that the member's own compaction has something to cut
 		{{Kind: "join", Node: 2, Via: 1}, {Kind: "join", Node: X, Via: 1}, {Kind: "deafen", Node: X}, {Kind: "join", Node: 26, Via: 1}, {Kind: "snapshot", Node: 1}, {Kind: "snapshot", Node: 2}, {Kind: "heal"}, {Kind: "entry", Via: 1}, {Kind: "snapshot", Node: X}, {Kind: "restart", Node: X}, {Kind: "restart", Node: 1}},
+		// a node started with -join=false, left alone, then attached
+		{{Kind: "join", Node: 2, Via: 1}, {Kind: "standalone", Node: X}, {Kind: "entry", Via: 1}, {Kind: "join", Node: X, Via: 1}, {Kind: "restart", Node: X}},
 		// joins that cannot commit (a member of a two-member group is down): nobody lists the newcomers meanwhile; when the
 		// member is back the changes go through and everybody lists them
 		{{Kind: "join", Node: 2, Via: 1}, {Kind: "down", Node: 2}, {Kind: "joinpending", Node: X, Via: 1}, {Kind: "up", Node: 2}, {Kind: "restart", Node: 1}},
@@ -573,7 +606,7 @@ func main() {
 		"servers are built by the real Server.setup(); joins go through the real NodesManager.Join / AddNode handshake, removals through RemoveNode; the zero-group snapshot offset is lowered to 0",
 		"one event at a time, the cluster settles in between; a lost handshake reply makes the joining process exit (as cmd/anndb does) and be started again",
 		"a removed node's process is stopped; only members' views are compared",
-		"directed histories (9, both tiers) add a lagging member (appends and snapshots to it are lost until it is healed; its view is not judged while it lags) and a snapshot message whose RPC fails once",
+		"directed histories (10, both tiers) add a lagging member (appends and snapshots to it are lost until it is healed; its view is not judged while it lags) and a snapshot message whose RPC fails once",
 	}
 	run.Finish(ev.Coverage{
 		"states":                        total.States,
